@@ -1,9 +1,32 @@
 //go:build verif
 
+// C03 in-package harness (injected with `go test -overlay`, tag verif; nothing in /repo is edited).
+//
+// A real ConsensusState is assembled by hand (in-memory state store, the real cstate.BlockExecutor
+// and validateBlock, a stub BaseBlockOperations that builds proposal blocks the way
+// blockchain.BlockOperations does, a recording PrivValidator, a manual ticker with the monotone
+// filter of ticker.go, nil WAL) and is driven synchronously through cs.handleMsg /
+// cs.handleTimeout.  The harness holds the keys of all other validators and feeds adversarial
+// scripts; after every input the projection of the RoundState and every signature / timeout /
+// commit request made during that input is printed (impl.txt) and compared with the extracted
+// Coq model (coq/theories/C03/Node.v) run on the same script (in.txt).  Independently of the
+// model, the C03 obligations are checked directly on the signature log against the messages
+// delivered so far (oracle.txt).
+//
+// Reusable by C01/C04/C05/C19: c03NewNode (one node), c03Net (keys, validator set, genesis
+// state), c03Node.deliver* and c03Node.drainOne (synchronous stepping), c03Node.events.
 package consensus
 
 import (
+	"bufio"
+	"encoding/json"
+	"flag"
 	"fmt"
+	"math/big"
+	"os"
+	"path/filepath"
+	"sort"
+	"strings"
 	"testing"
 	"time"
 
@@ -14,25 +37,232 @@ import (
 	"github.com/kardiachain/go-kardia/lib/common"
 	"github.com/kardiachain/go-kardia/lib/crypto"
 	"github.com/kardiachain/go-kardia/lib/log"
+	"github.com/kardiachain/go-kardia/lib/p2p"
 	stypes "github.com/kardiachain/go-kardia/mainchain/staking/types"
 	kproto "github.com/kardiachain/go-kardia/proto/kardiachain/types"
 	"github.com/kardiachain/go-kardia/trie"
 	"github.com/kardiachain/go-kardia/types"
 )
 
-var _ = cstypes.RoundStepNewHeight
-var _ = kproto.PrevoteType
-var _ = trie.NewStackTrie
+// ---------------------------------------------------------------------------------------------
+// flags and the two tiny helpers copied from verif/harness/internal/{gen,out}
 
-type c03BlockOps struct {
-	height uint64
+var (
+	c03Seed  = flag.Uint64("seed", 1, "PRNG seed")
+	c03N     = flag.Int("n", 100, "number of generated cases")
+	c03Dir   = flag.String("out", "", "output directory")
+	c03Only  = flag.Int("only", -1, "generate and run only this case index")
+	c03Tier  = flag.String("tier", "quick", "quick|thorough")
+	c03Facts = flag.String("facts", "", "unused (no source-derived facts for C03)")
+)
+
+type c03Rand struct{ s uint64 }
+
+func c03NewRand(seed uint64) *c03Rand { return &c03Rand{s: seed*0x9E3779B97F4A7C15 + 0x1234567} }
+func (r *c03Rand) Fork(i uint64) *c03Rand {
+	return &c03Rand{s: r.s ^ (i+1)*0xBF58476D1CE4E5B9}
+}
+func (r *c03Rand) U64() uint64 {
+	r.s += 0x9E3779B97F4A7C15
+	z := r.s
+	z = (z ^ (z >> 30)) * 0xBF58476D1CE4E5B9
+	z = (z ^ (z >> 27)) * 0x94D049BB133111EB
+	return z ^ (z >> 31)
+}
+func (r *c03Rand) Intn(n int) int {
+	if n <= 0 {
+		return 0
+	}
+	return int(r.U64() % uint64(n))
+}
+func (r *c03Rand) Chance(num, den int) bool { return r.Intn(den) < num }
+func (r *c03Rand) Pick(weights ...int) int {
+	t := 0
+	for _, w := range weights {
+		t += w
+	}
+	x := r.Intn(t)
+	for i, w := range weights {
+		if x < w {
+			return i
+		}
+		x -= w
+	}
+	return len(weights) - 1
+}
+func (r *c03Rand) Perm(n int) []int {
+	p := make([]int, n)
+	for i := range p {
+		p[i] = i
+	}
+	for i := n - 1; i > 0; i-- {
+		j := r.Intn(i + 1)
+		p[i], p[j] = p[j], p[i]
+	}
+	return p
 }
 
-func (b *c03BlockOps) Base() uint64                              { return 0 }
-func (b *c03BlockOps) Height() uint64                            { return b.height }
-func (b *c03BlockOps) LoadBlock(height uint64) *types.Block      { return nil }
+type c03Out struct {
+	dir           string
+	in, impl, orc *bufio.Writer
+	files         []*os.File
+	dist          map[string]int
+	samples       []string
+	cases, ops    int
+	nontrivial    map[string]bool
+	rule          string
+	fails         int
+	curCase       int
+	curSample     []string
+}
+
+func c03Open(dir string) *c03Out {
+	os.MkdirAll(dir, 0o755)
+	o := &c03Out{dir: dir, dist: map[string]int{}, nontrivial: map[string]bool{}}
+	for _, n := range []string{"in.txt", "impl.txt", "oracle.txt"} {
+		f, err := os.Create(filepath.Join(dir, n))
+		if err != nil {
+			panic(err)
+		}
+		o.files = append(o.files, f)
+	}
+	o.in, o.impl, o.orc = bufio.NewWriterSize(o.files[0], 1<<20), bufio.NewWriterSize(o.files[1], 1<<20), bufio.NewWriterSize(o.files[2], 1<<16)
+	return o
+}
+func (o *c03Out) flushSample() {
+	if o.curSample != nil && len(o.samples) < 3 {
+		o.samples = append(o.samples, strings.Join(o.curSample, "\n")+"\n")
+	}
+	o.curSample = nil
+}
+func (o *c03Out) Case(n int, header string) {
+	o.flushSample()
+	o.curCase = n
+	o.cases++
+	fmt.Fprintln(o.in, header)
+	fmt.Fprintf(o.impl, "CASE %d\n", n)
+	o.curSample = []string{header}
+}
+func (o *c03Out) Op(input, observed string) {
+	o.ops++
+	fmt.Fprintln(o.in, input)
+	fmt.Fprintln(o.impl, observed)
+	if len(o.curSample) < 60 {
+		o.curSample = append(o.curSample, input+"  =>  "+observed)
+	}
+}
+func (o *c03Out) InOnly(line string) {
+	fmt.Fprintln(o.in, line)
+	if len(o.curSample) < 60 {
+		o.curSample = append(o.curSample, line)
+	}
+}
+func (o *c03Out) Fail(step int, class, detail string) {
+	o.fails++
+	fmt.Fprintf(o.orc, "FAIL case=%d step=%d class=%s %s\n", o.curCase, step, class, detail)
+}
+func (o *c03Out) Count(k string) { o.dist[k]++ }
+func (o *c03Out) Mark(k string)  { o.nontrivial[k] = true }
+func (o *c03Out) Close() {
+	o.flushSample()
+	o.in.Flush()
+	o.impl.Flush()
+	o.orc.Flush()
+	for _, f := range o.files {
+		f.Close()
+	}
+	st := map[string]interface{}{"cases": o.cases, "ops": o.ops, "distinct_nontrivial": len(o.nontrivial),
+		"rule": o.rule, "dist": o.dist, "samples": o.samples, "oracle_failures": o.fails, "seed": *c03Seed}
+	b, _ := json.MarshalIndent(st, "", " ")
+	os.WriteFile(filepath.Join(o.dir, "stats.json"), b, 0o644)
+}
+
+// ---------------------------------------------------------------------------------------------
+// network-wide data: keys, validator set, genesis state
+
+const c03ChainID = "kaicon"
+
+var c03Genesis = time.Unix(1600000000, 0).UTC()
+
+type c03Net struct {
+	n      int
+	pvs    []*types.DefaultPrivValidator // by validator index
+	vals   *types.ValidatorSet
+	powers []int64
+	total  int64
+	state  cstate.LatestBlockState
+}
+
+// c03NewNet builds n validators with the given powers; keys are derived from tag so that a run is
+// reproducible.  Index i of pvs is validator index i of the (sorted) validator set.
+func c03NewNet(tag string, powers []int64) *c03Net {
+	n := len(powers)
+	var vals []*types.Validator
+	byAddr := map[common.Address]*types.DefaultPrivValidator{}
+	for i := 0; i < n; i++ {
+		k, err := crypto.ToECDSA(crypto.Keccak256([]byte(fmt.Sprintf("c03-key-%s-%d", tag, i))))
+		if err != nil {
+			panic(err)
+		}
+		pv := types.NewDefaultPrivValidator(k)
+		byAddr[pv.GetAddress()] = pv
+		vals = append(vals, types.NewValidator(pv.GetAddress(), powers[i]))
+	}
+	vs := types.NewValidatorSet(vals)
+	net := &c03Net{n: n, vals: vs}
+	for _, v := range vs.Validators {
+		net.pvs = append(net.pvs, byAddr[v.Address])
+		net.powers = append(net.powers, v.VotingPower)
+		net.total += v.VotingPower
+	}
+	net.state = cstate.LatestBlockState{ChainID: c03ChainID, InitialHeight: 1, LastBlockID: types.NewZeroBlockID(),
+		LastBlockTime: c03Genesis, Validators: vs, LastValidators: vs, NextValidators: vs.CopyIncrementProposerPriority(1),
+		ConsensusParams: *configs.DefaultConsensusParams()}
+	return net
+}
+
+// ---------------------------------------------------------------------------------------------
+// one node: the real ConsensusState with recording stubs around it
+
+type c03Event struct {
+	kind            string // sv sp sc cm
+	typ             int
+	height          uint64
+	round           uint32
+	pol             uint32
+	bid             types.BlockID
+	step            int
+	block           *types.Block
+	seenCommit      *types.Commit
+	partsIncomplete bool
+}
+
+type c03Node struct {
+	net    *c03Net
+	cs     *ConsensusState
+	me     int // validator index, -1 if not a validator
+	events []c03Event
+	ticker *c03Ticker
+	bo     *c03BlockOps
+	store  cstate.Store
+	probe  *cstate.BlockExecutor // separate executor for harness-side validateBlock queries (own cache)
+	eb     *types.EventBus
+}
+
+type c03BlockOps struct {
+	node    *c03Node
+	height  uint64
+	created []*types.Block // blocks built by CreateProposalBlock, in order
+	createR []uint32
+}
+
+func (b *c03BlockOps) Base() uint64                                { return 0 }
+func (b *c03BlockOps) Height() uint64                              { return b.height }
+func (b *c03BlockOps) LoadBlock(height uint64) *types.Block        { return nil }
 func (b *c03BlockOps) LoadBlockCommit(height uint64) *types.Commit { return nil }
 func (b *c03BlockOps) LoadSeenCommit(height uint64) *types.Commit  { return nil }
+
+// CreateProposalBlock mirrors blockchain.BlockOperations.CreateProposalBlock (no txs, no evidence).
 func (b *c03BlockOps) CreateProposalBlock(height uint64, state cstate.LatestBlockState, proposerAddr common.Address, commit *types.Commit) (*types.Block, *types.PartSet) {
 	var ts time.Time
 	if height == 1 {
@@ -41,14 +271,29 @@ func (b *c03BlockOps) CreateProposalBlock(height uint64, state cstate.LatestBloc
 		ts = cstate.MedianTime(commit, state.LastValidators)
 	}
 	h := &types.Header{Height: height, Time: ts, LastBlockID: state.LastBlockID, ProposerAddress: proposerAddr,
-		ValidatorsHash: state.Validators.Hash(), NextValidatorsHash: state.NextValidators.Hash(), AppHash: state.AppHash}
+		ValidatorsHash: state.Validators.Hash(), NextValidatorsHash: state.NextValidators.Hash(), AppHash: state.AppHash,
+		GasLimit: configs.BlockGasLimit}
 	blk := types.NewBlock(h, nil, commit, nil, trie.NewStackTrie(nil))
+	b.created = append(b.created, blk)
+	b.createR = append(b.createR, b.node.cs.Round)
 	return blk, blk.MakePartSet(types.BlockPartSizeBytes)
 }
 func (b *c03BlockOps) CommitAndValidateBlockTxs(block *types.Block, lastCommit stypes.LastCommitInfo, byzVals []stypes.Evidence) ([]*types.Validator, common.Hash, error) {
 	return nil, common.Hash{}, nil
 }
+
+// SaveBlock mirrors blockchain.BlockOperations.SaveBlock's sanity checks.
 func (b *c03BlockOps) SaveBlock(block *types.Block, partSet *types.PartSet, seenCommit *types.Commit) {
+	if block == nil {
+		common.PanicSanity("BlockOperations try to save a nil block")
+	}
+	if g, w := block.Height(), b.height+1; g != w {
+		common.PanicSanity(common.Fmt("BlockOperations can only save contiguous blocks. Wanted %v, got %v", w, g))
+	}
+	if !partSet.IsComplete() {
+		panic("BlockOperations can only save complete block part sets")
+	}
+	b.node.events = append(b.node.events, c03Event{kind: "cm", height: block.Height(), round: seenCommit.Round, block: block, seenCommit: seenCommit, bid: seenCommit.BlockID})
 	b.height = block.Height()
 }
 func (b *c03BlockOps) LoadBlockPart(height uint64, index int) *types.Part { return nil }
@@ -57,62 +302,1124 @@ func (b *c03BlockOps) Config() *configs.ChainConfig                       { retu
 
 type c03Ev struct{}
 
-func (c03Ev) AddEvidenceFromConsensus(ev types.Evidence) error                     { return nil }
-func (c03Ev) Update(s cstate.LatestBlockState, ev types.EvidenceList)               {}
-func (c03Ev) CheckEvidence(evList types.EvidenceList) error                         { return nil }
+func (c03Ev) AddEvidenceFromConsensus(ev types.Evidence) error        { return nil }
+func (c03Ev) Update(s cstate.LatestBlockState, ev types.EvidenceList) {}
+func (c03Ev) CheckEvidence(evList types.EvidenceList) error           { return nil }
 
-type c03Ticker struct{ sched []timeoutInfo }
+// c03Ticker: TimeoutTicker without a clock.  ScheduleTimeout applies timeoutRoutine's monotone
+// filter (ticker.go, transcribed); an accepted timeout may later be delivered once by the harness.
+type c03Ticker struct {
+	node    *c03Node
+	last    timeoutInfo
+	pending []timeoutInfo
+}
 
-func (t *c03Ticker) Start() error                   { return nil }
-func (t *c03Ticker) Stop() error                    { return nil }
-func (t *c03Ticker) Chan() <-chan timeoutInfo       { return nil }
-func (t *c03Ticker) ScheduleTimeout(ti timeoutInfo) { t.sched = append(t.sched, ti) }
-func (t *c03Ticker) SetLogger(log.Logger)           {}
-
-func TestVerifC03(t *testing.T) {
-	log.Root().SetHandler(log.DiscardHandler())
-	n := 4
-	var pvs []*types.DefaultPrivValidator
-	var vals []*types.Validator
-	for i := 0; i < n; i++ {
-		k, _ := crypto.ToECDSA(crypto.Keccak256([]byte(fmt.Sprintf("c03-%d", i))))
-		pv := types.NewDefaultPrivValidator(k)
-		pvs = append(pvs, pv)
-		vals = append(vals, types.NewValidator(pv.GetAddress(), 10))
-	}
-	vs := types.NewValidatorSet(vals)
-	st := cstate.LatestBlockState{ChainID: "kaicon", InitialHeight: 1, LastBlockID: types.NewZeroBlockID(),
-		LastBlockTime: time.Unix(1600000000, 0), Validators: vs, LastValidators: vs, NextValidators: vs.CopyIncrementProposerPriority(1),
-		ConsensusParams: *configs.DefaultConsensusParams()}
-	store := cstate.NewStore(memorydb.New())
-	store.Save(st)
-	bo := &c03BlockOps{}
-	logger := log.New()
-	be := cstate.NewBlockExecutor(store, logger, c03Ev{}, bo)
-	cs := NewConsensusState(logger, configs.TestConsensusConfig(), st, bo, be, c03Ev{})
-	tk := &c03Ticker{}
-	cs.timeoutTicker = tk
-	// who am i
-	me := 0
-	for i, pv := range pvs {
-		if pv.GetAddress().Equal(vs.Validators[0].Address) {
-			me = i
+func (t *c03Ticker) Start() error             { return nil }
+func (t *c03Ticker) Stop() error              { return nil }
+func (t *c03Ticker) Chan() <-chan timeoutInfo { return nil }
+func (t *c03Ticker) SetLogger(log.Logger)     {}
+func (t *c03Ticker) ScheduleTimeout(newti timeoutInfo) {
+	t.node.events = append(t.node.events, c03Event{kind: "sc", height: newti.Height, round: newti.Round, step: int(newti.Step)})
+	ti := t.last
+	if newti.Height < ti.Height {
+		return
+	} else if newti.Height == ti.Height {
+		if newti.Round < ti.Round {
+			return
+		} else if newti.Round == ti.Round {
+			if ti.Step > 0 && newti.Step <= ti.Step {
+				return
+			}
 		}
 	}
-	cs.SetPrivValidator(pvs[me])
-	eb := types.NewEventBus()
-	eb.SetLogger(logger)
-	eb.Start()
-	cs.SetEventBus(eb)
-	fmt.Println("H/R/S", cs.Height, cs.Round, cs.Step, "proposer", vs.GetProposer().Address.Hex(), "me", pvs[me].GetAddress().Hex())
-	cs.handleTimeout(timeoutInfo{Height: 1, Round: 1, Step: cstypes.RoundStepNewHeight}, cs.RoundState)
-	fmt.Println("H/R/S", cs.Height, cs.Round, cs.Step, "sched", tk.sched, "iq", len(cs.internalMsgQueue))
-	for len(cs.internalMsgQueue) > 0 {
-		mi := <-cs.internalMsgQueue
-		cs.handleMsg(mi)
-		fmt.Printf("  handled %T -> H/R/S %d %d %d\n", mi.Msg, cs.Height, cs.Round, cs.Step)
+	t.last = newti
+	t.pending = append([]timeoutInfo{newti}, t.pending...)
+}
+
+// take removes (h,r,s) from the deliverable set; false if it was never accepted / already delivered
+func (t *c03Ticker) take(h uint64, r uint32, s cstypes.RoundStepType) bool {
+	for i, ti := range t.pending {
+		if ti.Height == h && ti.Round == r && ti.Step == s {
+			t.pending = append(t.pending[:i:i], t.pending[i+1:]...)
+			return true
+		}
 	}
-	cs.handleTimeout(timeoutInfo{Height: 1, Round: 1, Step: cstypes.RoundStepPropose}, cs.RoundState)
-	fmt.Println("H/R/S", cs.Height, cs.Round, cs.Step, "sched", tk.sched, "iq", len(cs.internalMsgQueue))
-	eb.Stop()
+	return false
+}
+
+// c03PV records every signing request before delegating to the real DefaultPrivValidator.
+type c03PV struct {
+	*types.DefaultPrivValidator
+	node *c03Node
+}
+
+func (p *c03PV) SignVote(chainID string, vote *kproto.Vote) error {
+	bid, _ := types.BlockIDFromProto(&vote.BlockID)
+	p.node.events = append(p.node.events, c03Event{kind: "sv", typ: int(vote.Type), height: vote.Height, round: vote.Round, bid: *bid})
+	return p.DefaultPrivValidator.SignVote(chainID, vote)
+}
+func (p *c03PV) SignProposal(chainID string, proposal *kproto.Proposal) error {
+	bid, _ := types.BlockIDFromProto(&proposal.BlockID)
+	p.node.events = append(p.node.events, c03Event{kind: "sp", height: proposal.Height, round: proposal.Round, pol: proposal.PolRound, bid: *bid})
+	return p.DefaultPrivValidator.SignProposal(chainID, proposal)
+}
+
+// c03NewNode assembles a ConsensusState for validator index me (-1: a key outside the set).
+func c03NewNode(net *c03Net, me int, cfg *configs.ConsensusConfig) *c03Node {
+	nd := &c03Node{net: net, me: me}
+	nd.store = cstate.NewStore(memorydb.New())
+	nd.store.Save(net.state)
+	nd.bo = &c03BlockOps{node: nd}
+	logger := log.New()
+	be := cstate.NewBlockExecutor(nd.store, logger, c03Ev{}, nd.bo)
+	nd.probe = cstate.NewBlockExecutor(nd.store, logger, c03Ev{}, nd.bo)
+	cs := NewConsensusState(logger, cfg, net.state.Copy(), nd.bo, be, c03Ev{})
+	nd.cs = cs
+	nd.ticker = &c03Ticker{node: nd, last: *EmptyTimeoutInfo()}
+	cs.timeoutTicker = nd.ticker
+	var key *types.DefaultPrivValidator
+	if me >= 0 {
+		key = net.pvs[me]
+	} else {
+		k, _ := crypto.ToECDSA(crypto.Keccak256([]byte("c03-outsider")))
+		key = types.NewDefaultPrivValidator(k)
+	}
+	cs.SetPrivValidator(&c03PV{DefaultPrivValidator: key, node: nd})
+	nd.eb = types.NewEventBus()
+	nd.eb.SetLogger(logger)
+	if err := nd.eb.Start(); err != nil {
+		panic(err)
+	}
+	cs.SetEventBus(nd.eb)
+	cs.scheduleRound0(cs.GetRoundState()) // what OnStart does
+	return nd
+}
+
+func (nd *c03Node) close() { nd.eb.Stop() }
+
+// guarded runs f and converts a Go panic into a returned string (what receiveRoutine logs as
+// CONSENSUS FAILURE before stopping).
+func c03Guarded(f func()) (panicked string) {
+	defer func() {
+		if r := recover(); r != nil {
+			panicked = fmt.Sprint(r)
+			if panicked == "" {
+				panicked = "panic"
+			}
+		}
+	}()
+	f()
+	return ""
+}
+
+func (nd *c03Node) deliverMsg(m Message, peer p2p.ID) string {
+	return c03Guarded(func() { nd.cs.handleMsg(msgInfo{Msg: m, PeerID: peer}) })
+}
+func (nd *c03Node) deliverTimeout(h uint64, r uint32, s cstypes.RoundStepType) string {
+	return c03Guarded(func() { nd.cs.handleTimeout(timeoutInfo{Height: h, Round: r, Step: s}, nd.cs.RoundState) })
+}
+
+// ---------------------------------------------------------------------------------------------
+// the script runner for one case
+
+type c03Block struct {
+	blk     *types.Block
+	parts   *types.PartSet
+	hashID  int
+	partsID int
+	validAt uint64 // height at which the block is a valid extension of the node's chain (0: never)
+	kind    string
+}
+
+type c03RecvVote struct {
+	typ    int
+	height uint64
+	round  uint32
+	bid    string
+	idx    int
+	ok     bool
+}
+
+type c03Case struct {
+	o      *c03Out
+	r      *c03Rand
+	net    *c03Net
+	nd     *c03Node
+	opNo   int
+	hashes map[common.Hash]int
+	partsH map[string]int
+	blocks []*c03Block
+	byHash map[common.Hash]*c03Block
+	// oracle state
+	recv        []c03RecvVote
+	held        map[common.Hash]bool
+	signedKey   map[string]string
+	precommits  []c03Event // non-nil precommits signed, this height
+	lastHRS     [3]uint64
+	voteClock   int64
+	campaign    []func()
+	declaredH   uint64
+	createdSeen int
+	maxRound    uint32
+	dead        bool
+}
+
+func (c *c03Case) hid(h common.Hash) int {
+	if h.IsZero() {
+		return 0
+	}
+	if id, ok := c.hashes[h]; ok {
+		return id
+	}
+	id := len(c.hashes) + 1
+	c.hashes[h] = id
+	return id
+}
+func (c *c03Case) pid(p types.PartSetHeader) int {
+	if p.IsZero() {
+		return 0
+	}
+	k := fmt.Sprintf("%d/%x", p.Total, p.Hash[:])
+	if id, ok := c.partsH[k]; ok {
+		return id
+	}
+	id := len(c.partsH) + 1
+	c.partsH[k] = id
+	return id
+}
+func (c *c03Case) bidS(b types.BlockID) string {
+	if b.Hash.IsZero() && b.PartsHeader.IsZero() {
+		return "-"
+	}
+	return fmt.Sprintf("%d:%d", c.hid(b.Hash), c.pid(b.PartsHeader))
+}
+func c03BidKey(b types.BlockID) string {
+	return fmt.Sprintf("%x/%d/%x", b.Hash[:], b.PartsHeader.Total, b.PartsHeader.Hash[:])
+}
+
+// --- specification of "valid extension of the node's own chain" (independent re-statement of
+// validateBlock: height, parent id, last-commit verification, app/validator hashes, time rule)
+
+func c03SpecMedian(commit *types.Commit, vals *types.ValidatorSet) time.Time {
+	type wt struct {
+		t time.Time
+		w int64
+	}
+	var l []wt
+	total := int64(0)
+	for _, s := range commit.Signatures {
+		if s.Absent() {
+			continue
+		}
+		if _, v := vals.GetByAddress(s.ValidatorAddress); v != nil {
+			l = append(l, wt{s.Timestamp, v.VotingPower})
+			total += v.VotingPower
+		}
+	}
+	sort.SliceStable(l, func(i, j int) bool { return l[i].t.UnixNano() < l[j].t.UnixNano() })
+	median := total / 2
+	for _, e := range l {
+		if median <= e.w {
+			return e.t
+		}
+		median -= e.w
+	}
+	return time.Time{}
+}
+
+func c03SpecValid(st cstate.LatestBlockState, b *types.Block) bool {
+	if b.ValidateBasic(trie.NewStackTrie(nil)) != nil {
+		return false
+	}
+	h := b.Header()
+	if h.Height != st.LastBlockHeight+1 {
+		return false
+	}
+	if !h.LastBlockID.Equal(st.LastBlockID) || !h.AppHash.Equal(st.AppHash) ||
+		!h.ValidatorsHash.Equal(st.Validators.Hash()) || !h.NextValidatorsHash.Equal(st.NextValidators.Hash()) {
+		return false
+	}
+	lc := b.LastCommit()
+	if h.Height == st.InitialHeight {
+		if lc != nil && len(lc.Signatures) != 0 {
+			return false
+		}
+		if !h.Time.Equal(st.LastBlockTime) {
+			return false
+		}
+	} else {
+		if lc == nil || lc.Height != h.Height-1 || !lc.BlockID.Equal(st.LastBlockID) || len(lc.Signatures) != st.LastValidators.Size() {
+			return false
+		}
+		tally, total := new(big.Int), new(big.Int)
+		for i, v := range st.LastValidators.Validators {
+			total.Add(total, big.NewInt(v.VotingPower))
+			s := lc.Signatures[i]
+			if s.Absent() {
+				continue
+			}
+			if !types.VerifySignature(v.Address, crypto.Keccak256(lc.VoteSignBytes(st.ChainID, uint32(i))), s.Signature) {
+				return false
+			}
+			if s.ForBlock() {
+				tally.Add(tally, big.NewInt(v.VotingPower))
+			}
+		}
+		if new(big.Int).Mul(tally, big.NewInt(3)).Cmp(new(big.Int).Mul(total, big.NewInt(2))) <= 0 {
+			return false
+		}
+		if !h.Time.After(st.LastBlockTime) || !h.Time.Equal(c03SpecMedian(lc, st.LastValidators)) {
+			return false
+		}
+	}
+	if !st.Validators.HasAddress(h.ProposerAddress) {
+		return false
+	}
+	return len(b.Evidence().Evidence) == 0
+}
+
+// --- block generation
+
+func (c *c03Case) lastCommitFor(height uint64) *types.Commit {
+	if height == 1 {
+		return types.NewCommit(0, 0, types.BlockID{}, nil)
+	}
+	cs := c.nd.cs
+	if cs.LastCommit != nil && cs.LastCommit.HasTwoThirdsMajority() {
+		return cs.LastCommit.MakeCommit()
+	}
+	return types.NewCommit(0, 0, types.BlockID{}, nil)
+}
+
+func (c *c03Case) newBlock(kind string) *c03Block {
+	cs := c.nd.cs
+	st := cs.state
+	height := cs.Height
+	commit := c.lastCommitFor(height)
+	ts := st.LastBlockTime
+	if height > 1 {
+		ts = cstate.MedianTime(commit, st.LastValidators)
+	}
+	h := &types.Header{Height: height, Time: ts, LastBlockID: st.LastBlockID,
+		ProposerAddress: c.net.vals.Validators[c.r.Intn(c.net.n)].Address,
+		ValidatorsHash:  st.Validators.Hash(), NextValidatorsHash: st.NextValidators.Hash(), AppHash: st.AppHash,
+		GasLimit: uint64(1000 + c.r.Intn(1000000))}
+	switch kind {
+	case "valid":
+	case "height+":
+		h.Height = height + 1
+	case "height-":
+		if height > 1 {
+			h.Height = height - 1
+		} else {
+			h.Height = height + 2
+		}
+	case "parent":
+		h.LastBlockID = types.BlockID{Hash: common.BytesToHash([]byte{1, byte(c.r.Intn(200))}), PartsHeader: types.PartSetHeader{Total: 1, Hash: common.BytesToHash([]byte{2})}}
+	case "apphash":
+		h.AppHash = common.BytesToHash([]byte{3, byte(c.r.Intn(200))})
+	case "valhash":
+		h.ValidatorsHash = common.BytesToHash([]byte{4, byte(c.r.Intn(200))})
+	case "nextvalhash":
+		h.NextValidatorsHash = common.BytesToHash([]byte{5, byte(c.r.Intn(200))})
+	case "time":
+		h.Time = ts.Add(time.Duration(1+c.r.Intn(5)) * time.Second)
+	case "proposer":
+		h.ProposerAddress = common.BytesToAddress([]byte{6, byte(c.r.Intn(200))})
+	case "commit":
+		if height == 1 {
+			// a non-empty commit in the first block
+			commit = types.NewCommit(0, 1, types.BlockID{Hash: common.BytesToHash([]byte{7}), PartsHeader: types.PartSetHeader{Total: 1, Hash: common.BytesToHash([]byte{8})}},
+				[]types.CommitSig{types.NewCommitSigForBlock([]byte{1, 2, 3}, c.net.vals.Validators[0].Address, c03Genesis)})
+		} else {
+			// drop signatures until at most 2/3 remain
+			cp := types.NewCommit(commit.Height, commit.Round, commit.BlockID, append([]types.CommitSig{}, commit.Signatures...))
+			left := c.net.total
+			for _, i := range c.r.Perm(len(cp.Signatures)) {
+				if 3*left <= 2*c.net.total {
+					break
+				}
+				if !cp.Signatures[i].Absent() {
+					cp.Signatures[i] = types.NewCommitSigAbsent()
+				}
+				left -= c.net.powers[i]
+			}
+			commit = cp
+			h.Time = cstate.MedianTime(commit, st.LastValidators)
+		}
+	}
+	blk := types.NewBlock(h, nil, commit, nil, trie.NewStackTrie(nil))
+	return c.register(blk, kind, []uint32{types.BlockPartSizeBytes, 300, 150}[c.r.Pick(3, 1, 1)])
+}
+
+// register interns a block, declares it to the model and checks the validity notions against each other.
+func (c *c03Case) register(blk *types.Block, kind string, partSize uint32) *c03Block {
+	if b, ok := c.byHash[blk.Hash()]; ok {
+		return b
+	}
+	cs := c.nd.cs
+	ps := blk.MakePartSet(partSize)
+	b := &c03Block{blk: blk, parts: ps, kind: kind}
+	b.hashID = c.hid(blk.Hash())
+	b.partsID = c.pid(ps.Header())
+	spec := c03SpecValid(cs.state, blk)
+	impl := c.nd.probe.ValidateBlock(cs.state, blk) == nil
+	if spec {
+		b.validAt = cs.Height
+	}
+	if spec != (kind == "valid" || kind == "own") {
+		c.o.Fail(c.opNo, "harness-block-kind", fmt.Sprintf("kind=%s spec=%v", kind, spec))
+	}
+	if spec != impl {
+		c.o.Fail(c.opNo, "validateBlock-vs-spec", fmt.Sprintf("kind=%s height=%d spec=%v validateBlock=%v", kind, cs.Height, spec, impl))
+	}
+	c.blocks = append(c.blocks, b)
+	c.byHash[blk.Hash()] = b
+	c.o.InOnly(fmt.Sprintf("BLOCK %d %d %d", b.hashID, b.partsID, b.validAt))
+	c.o.Count("block:" + kind)
+	return b
+}
+
+func (c *c03Case) blocksAt(height uint64) []*c03Block {
+	var l []*c03Block
+	for _, b := range c.blocks {
+		if b.blk.Height() == height || b.validAt == height {
+			l = append(l, b)
+		}
+	}
+	return l
+}
+
+var c03InvalidKinds = []string{"height+", "height-", "parent", "apphash", "valhash", "nextvalhash", "time", "proposer", "commit"}
+
+// someBlock returns a block for the current height: an existing one or a new one.
+func (c *c03Case) someBlock() *c03Block {
+	l := c.blocksAt(c.nd.cs.Height)
+	if len(l) > 0 && c.r.Chance(3, 4) {
+		return l[c.r.Intn(len(l))]
+	}
+	if len(l) >= 5 {
+		return l[c.r.Intn(len(l))]
+	}
+	if c.r.Chance(2, 3) {
+		return c.newBlock("valid")
+	}
+	return c.newBlock(c03InvalidKinds[c.r.Intn(len(c03InvalidKinds))])
+}
+
+// someBid: the id of a block, sometimes with the parts header of another block, sometimes unknown.
+func (c *c03Case) someBid(b *c03Block) types.BlockID {
+	id := types.BlockID{Hash: b.blk.Hash(), PartsHeader: b.parts.Header()}
+	switch c.r.Pick(30, 2, 1) {
+	case 1:
+		o := c.someBlock()
+		id.PartsHeader = o.parts.Header()
+		if o != b {
+			c.o.Count("bid:mismatched-parts")
+		}
+	case 2:
+		id = types.BlockID{Hash: common.BytesToHash([]byte{9, byte(c.r.Intn(3))}), PartsHeader: types.PartSetHeader{Total: 1, Hash: common.BytesToHash([]byte{10, byte(c.r.Intn(3))})}}
+		c.o.Count("bid:unknown")
+	}
+	return id
+}
+
+// --- observation
+
+func (c *c03Case) blkS(b *types.Block, ps *types.PartSet) string {
+	if b == nil {
+		return "-"
+	}
+	return fmt.Sprintf("%d:%d", c.hid(b.Hash()), c.pid(ps.Header()))
+}
+
+func (c *c03Case) outsS(evs []c03Event) []string {
+	var l []string
+	for _, e := range evs {
+		switch e.kind {
+		case "sv":
+			l = append(l, fmt.Sprintf("sv:%d:%d:%d:%s", e.typ, e.height, e.round, c.bidS(e.bid)))
+		case "sp":
+			l = append(l, fmt.Sprintf("sp:%d:%d:%d:%s", e.height, e.round, e.pol, c.bidS(e.bid)))
+		case "sc":
+			l = append(l, fmt.Sprintf("sc:%d:%d:%d", e.height, e.round, e.step))
+		case "cm":
+			l = append(l, fmt.Sprintf("cm:%d:%d:%d", e.height, e.round, c.hid(e.block.Hash())))
+		}
+	}
+	return l
+}
+
+func (c *c03Case) observe(evs []c03Event, panicked string) string {
+	outs := c.outsS(evs)
+	if panicked != "" {
+		outs = append(outs, "PANIC")
+		return "X " + strings.Join(outs, " ")
+	}
+	cs := c.nd.cs
+	p := "0"
+	if cs.Proposal != nil {
+		p = "1"
+	}
+	pb := "-"
+	if cs.ProposalBlock != nil {
+		pb = fmt.Sprint(c.hid(cs.ProposalBlock.Hash()))
+	}
+	pp := "-"
+	if cs.ProposalBlockParts != nil {
+		k := "0"
+		if cs.ProposalBlockParts.IsComplete() {
+			k = "1"
+		}
+		pp = fmt.Sprintf("%d:%s", c.pid(cs.ProposalBlockParts.Header()), k)
+	}
+	tt := "0"
+	if cs.TriggeredTimeoutPrecommit {
+		tt = "1"
+	}
+	return fmt.Sprintf("S %d %d %d L %d %s V %d %s P %s B %s PP %s CR %d TT %s O %s",
+		cs.Height, cs.Round, int(cs.Step), cs.LockedRound, c.blkS(cs.LockedBlock, cs.LockedBlockParts),
+		cs.ValidRound, c.blkS(cs.ValidBlock, cs.ValidBlockParts), p, pb, pp, cs.CommitRound, tt, strings.Join(outs, " "))
+}
+
+// --- direct oracles (independent of the model)
+
+func (c *c03Case) powerFor(typ int, h uint64, r uint32, bidKey string) int64 {
+	seen := map[int]bool{}
+	sum := int64(0)
+	for _, v := range c.recv {
+		if v.ok && v.typ == typ && v.height == h && v.round == r && v.bid == bidKey && !seen[v.idx] {
+			seen[v.idx] = true
+			sum += c.net.powers[v.idx]
+		}
+	}
+	return sum
+}
+func (c *c03Case) quorum(p int64) bool { return 3*p > 2*c.net.total }
+
+// polkaOther: some round in (lo, hi] has +2/3 prevotes for a value whose hash differs from h
+func (c *c03Case) polkaOther(height uint64, lo, hi uint32, hash common.Hash) bool {
+	keys := map[string]bool{}
+	for _, v := range c.recv {
+		if v.ok && v.typ == int(kproto.PrevoteType) && v.height == height && v.round > lo && v.round <= hi {
+			keys[fmt.Sprintf("%d|%s", v.round, v.bid)] = true
+		}
+	}
+	for k := range keys {
+		var r uint32
+		var bid string
+		i := strings.Index(k, "|")
+		fmt.Sscan(k[:i], &r)
+		bid = k[i+1:]
+		if strings.HasPrefix(bid, fmt.Sprintf("%x/", hash[:])) {
+			continue
+		}
+		if c.quorum(c.powerFor(int(kproto.PrevoteType), height, r, bid)) {
+			return true
+		}
+	}
+	return false
+}
+
+func (c *c03Case) heldValid(hash common.Hash, height uint64) (held, valid bool) {
+	b := c.byHash[hash]
+	return c.held[hash], b != nil && b.validAt == height && height != 0
+}
+
+func (c *c03Case) oracles(evs []c03Event, panicked string) {
+	cs := c.nd.cs
+	for _, e := range evs {
+		switch e.kind {
+		case "sv":
+			key := fmt.Sprintf("v/%d/%d/%d", e.typ, e.height, e.round)
+			if prev, ok := c.signedKey[key]; ok {
+				c.o.Fail(c.opNo, "double-sign-vote", fmt.Sprintf("type=%d h=%d r=%d first=%s second=%s", e.typ, e.height, e.round, prev, c.bidS(e.bid)))
+			}
+			c.signedKey[key] = c.bidS(e.bid)
+			if e.bid.IsZero() {
+				continue
+			}
+			held, valid := c.heldValid(e.bid.Hash, e.height)
+			if e.typ == int(kproto.PrecommitType) {
+				if !c.quorum(c.powerFor(int(kproto.PrevoteType), e.height, e.round, c03BidKey(e.bid))) {
+					c.o.Fail(c.opNo, "precommit-without-polka", fmt.Sprintf("h=%d r=%d bid=%s", e.height, e.round, c.bidS(e.bid)))
+				}
+				if !held || !valid {
+					c.o.Fail(c.opNo, "precommit-block-not-held-or-invalid", fmt.Sprintf("h=%d r=%d bid=%s held=%v valid=%v", e.height, e.round, c.bidS(e.bid), held, valid))
+				}
+				c.precommits = append(c.precommits, e)
+				c.o.Mark(fmt.Sprintf("precommit-block r=%d", e.round))
+			} else {
+				if !held || !valid {
+					c.o.Fail(c.opNo, "prevote-block-not-held-or-invalid", fmt.Sprintf("h=%d r=%d bid=%s held=%v valid=%v", e.height, e.round, c.bidS(e.bid), held, valid))
+				}
+				for _, pc := range c.precommits {
+					if pc.height == e.height && pc.round < e.round && pc.bid.Hash != e.bid.Hash {
+						if !c.polkaOther(e.height, pc.round, e.round, pc.bid.Hash) {
+							c.o.Fail(c.opNo, "lock-rule", fmt.Sprintf("h=%d precommitted %s at r=%d, prevoted %s at r=%d without a +2/3 prevote set for another value in between",
+								e.height, c.bidS(pc.bid), pc.round, c.bidS(e.bid), e.round))
+						} else {
+							c.o.Mark(fmt.Sprintf("unlocked-then-prevoted-other %d->%d", pc.round, e.round))
+						}
+					}
+				}
+			}
+		case "sp":
+			key := fmt.Sprintf("p/%d/%d", e.height, e.round)
+			if prev, ok := c.signedKey[key]; ok {
+				c.o.Fail(c.opNo, "double-sign-proposal", fmt.Sprintf("h=%d r=%d first=%s second=%s", e.height, e.round, prev, c.bidS(e.bid)))
+			}
+			c.signedKey[key] = c.bidS(e.bid)
+			if c.nd.me < 0 || c.proposerAt(e.round) != c.nd.me {
+				c.o.Fail(c.opNo, "proposal-not-proposer", fmt.Sprintf("h=%d r=%d", e.height, e.round))
+			}
+		case "cm":
+			if !c.quorum(c.powerFor(int(kproto.PrecommitType), e.height, e.round, c03BidKey(e.bid))) {
+				c.o.Fail(c.opNo, "commit-without-quorum", fmt.Sprintf("h=%d r=%d bid=%s", e.height, e.round, c.bidS(e.bid)))
+			}
+			b := c.byHash[e.block.Hash()]
+			if b == nil || b.validAt != e.height || !e.block.HashesTo(e.bid.Hash) {
+				c.o.Fail(c.opNo, "commit-invalid-block", fmt.Sprintf("h=%d r=%d bid=%s", e.height, e.round, c.bidS(e.bid)))
+			}
+			c.o.Mark(fmt.Sprintf("commit r=%d", e.round))
+		}
+	}
+	if panicked == "" {
+		cur := [3]uint64{cs.Height, uint64(cs.Round), uint64(cs.Step)}
+		if cur[0] < c.lastHRS[0] || (cur[0] == c.lastHRS[0] && (cur[1] < c.lastHRS[1] || (cur[1] == c.lastHRS[1] && cur[2] < c.lastHRS[2]))) {
+			c.o.Fail(c.opNo, "round-not-monotone", fmt.Sprintf("%v -> %v", c.lastHRS, cur))
+		}
+		c.lastHRS = cur
+	}
+}
+
+// proposerAt: proposer index at (current height, round) from the validator set alone (C12 code)
+func (c *c03Case) proposerAt(round uint32) int {
+	vs := c.nd.cs.state.Validators.Copy()
+	if round > 1 {
+		vs.IncrementProposerPriority(int64(round - 1))
+	}
+	idx, _ := c.nd.cs.state.Validators.GetByAddress(vs.GetProposer().Address)
+	return int(idx)
+}
+
+const c03MaxRounds = 24
+
+func (c *c03Case) declareHeight() {
+	cs := c.nd.cs
+	if c.declaredH == cs.Height {
+		return
+	}
+	c.declaredH = cs.Height
+	l := []string{"PROPOSERS", fmt.Sprint(cs.Height)}
+	for r := uint32(1); r <= c03MaxRounds; r++ {
+		l = append(l, fmt.Sprint(c.proposerAt(r)))
+	}
+	c.o.InOnly(strings.Join(l, " "))
+	c.precommits = nil
+}
+
+// --- executing one op on the implementation
+
+func (c *c03Case) run(input string, f func() string) {
+	if c.dead {
+		return
+	}
+	c.declareHeight()
+	nd := c.nd
+	nd.events = nil
+	panicked := f()
+	// blocks built by the node itself during this op
+	for ; c.createdSeen < len(nd.bo.created); c.createdSeen++ {
+		blk := nd.bo.created[c.createdSeen]
+		// validity of an own block refers to the height it was built for
+		b := c.register(blk, "own", types.BlockPartSizeBytes)
+		c.held[blk.Hash()] = true
+		c.o.InOnly(fmt.Sprintf("CREATE %d %d %d %d", blk.Height(), nd.bo.createR[c.createdSeen], b.hashID, b.partsID))
+	}
+	c.oracles(nd.events, panicked)
+	c.o.Op(input, c.observe(nd.events, panicked))
+	c.opNo++
+	if panicked != "" {
+		c.dead = true
+		cl := "other"
+		switch {
+		case strings.Contains(panicked, "prevoted for an invalid block"):
+			cl = "polka-for-invalid-block"
+		case strings.Contains(panicked, "committed an invalid block"):
+			cl = "commit-of-invalid-block"
+		case strings.Contains(panicked, "nil VoteSet"):
+			cl = "nil-LastCommit"
+		case strings.Contains(panicked, "complete block part sets"):
+			cl = "save-incomplete-parts"
+		case strings.Contains(panicked, "ProposalBlockParts header"):
+			cl = "commit-parts-header"
+		case strings.Contains(panicked, "LastCommit cannot be empty"):
+			cl = "round0-commit-lastcommit-empty"
+		case strings.Contains(panicked, "nil pointer"):
+			cl = "nil-part"
+		}
+		c.o.Count("panic:" + cl)
+		c.o.Mark("panic:" + cl)
+		if cl == "other" {
+			c.o.Count("panic-text:" + strings.Split(panicked, "\n")[0])
+		}
+	}
+	if c.nd.cs.Round > c.maxRound {
+		c.maxRound = c.nd.cs.Round
+	}
+}
+
+// --- op constructors
+
+func (c *c03Case) signVoteAs(idx int, typ kproto.SignedMsgType, h uint64, r uint32, bid types.BlockID, mode int) (*types.Vote, bool) {
+	c.voteClock++
+	v := &types.Vote{ValidatorAddress: c.net.pvs[idx].GetAddress(), ValidatorIndex: uint32(idx), Height: h, Round: r,
+		Timestamp: c03Genesis.Add(time.Duration(c.voteClock) * time.Second), Type: typ, BlockID: bid}
+	ok := true
+	signer := idx
+	switch mode {
+	case 1: // signed by another validator's key
+		signer = (idx + 1 + c.r.Intn(c.net.n-1)) % c.net.n
+		ok = false
+	case 2: // index/address mismatch
+		v.ValidatorIndex = uint32((idx + 1) % c.net.n)
+		ok = false
+	case 3: // index out of range
+		v.ValidatorIndex = uint32(c.net.n + c.r.Intn(3))
+		ok = false
+	}
+	pv := v.ToProto()
+	if err := c.net.pvs[signer].SignVote(c03ChainID, pv); err != nil {
+		panic(err)
+	}
+	v.Signature = pv.Signature
+	if mode == 4 { // content changed after signing
+		v.Timestamp = v.Timestamp.Add(time.Second)
+		ok = false
+	}
+	return v, ok
+}
+
+func (c *c03Case) opVote(peer int, v *types.Vote, ok bool) {
+	typ := 1
+	if v.Type == kproto.PrecommitType {
+		typ = 2
+	}
+	in := fmt.Sprintf("V %d %d %d %d %d %d %d %d", peer, typ, v.Height, v.Round, c.hid(v.BlockID.Hash), c.pid(v.BlockID.PartsHeader), v.ValidatorIndex, c03b(ok))
+	msg := &VoteMessage{Vote: v}
+	c.run(in, func() string {
+		if msg.ValidateBasic() != nil { // the reactor's filter (manager.go Receive)
+			c.o.Count("vote:rejected-by-ValidateBasic")
+			return ""
+		}
+		if int(v.ValidatorIndex) < c.net.n {
+			c.recv = append(c.recv, c03RecvVote{typ: typ, height: v.Height, round: v.Round, bid: c03BidKey(v.BlockID), idx: int(v.ValidatorIndex), ok: ok})
+		}
+		pid := p2p.ID("")
+		if peer > 0 {
+			pid = p2p.ID(fmt.Sprintf("peer%d", peer))
+		}
+		return c.nd.deliverMsg(msg, pid)
+	})
+}
+
+func c03b(b bool) int {
+	if b {
+		return 1
+	}
+	return 0
+}
+
+func (c *c03Case) opProposal(p *types.Proposal, signer int, peer int) {
+	s := "-"
+	if signer >= 0 {
+		s = fmt.Sprint(signer)
+	}
+	in := fmt.Sprintf("P %d %d %d %d %d %s", p.Height, p.Round, p.POLRound, c.hid(p.POLBlockID.Hash), c.pid(p.POLBlockID.PartsHeader), s)
+	msg := &ProposalMessage{Proposal: p}
+	c.run(in, func() string {
+		if msg.ValidateBasic() != nil {
+			c.o.Count("proposal:rejected-by-ValidateBasic")
+			return ""
+		}
+		pid := p2p.ID("")
+		if peer > 0 {
+			pid = p2p.ID(fmt.Sprintf("peer%d", peer))
+		}
+		return c.nd.deliverMsg(msg, pid)
+	})
+}
+
+func (c *c03Case) opBlock(h uint64, r uint32, b *c03Block, peer int) {
+	in := fmt.Sprintf("K %d %d %d %d", h, r, b.hashID, b.partsID)
+	c.run(in, func() string {
+		if h == c.nd.cs.Height {
+			c.held[b.blk.Hash()] = true
+		}
+		pid := p2p.ID("")
+		if peer > 0 {
+			pid = p2p.ID(fmt.Sprintf("peer%d", peer))
+		}
+		for i := 0; i < int(b.parts.Total()); i++ {
+			if p := c.nd.deliverMsg(&BlockPartMessage{Height: h, Round: r, Part: b.parts.GetPart(i)}, pid); p != "" {
+				return p
+			}
+		}
+		return ""
+	})
+}
+
+func (c *c03Case) opTimeout(h uint64, r uint32, s cstypes.RoundStepType) {
+	in := fmt.Sprintf("T %d %d %d", h, r, int(s))
+	c.run(in, func() string {
+		if !c.nd.ticker.take(h, r, s) {
+			c.o.Count("timeout:never-scheduled")
+			return ""
+		}
+		return c.nd.deliverTimeout(h, r, s)
+	})
+}
+
+// drainOne delivers the oldest message of the internal queue (own proposal / block parts / vote).
+func (c *c03Case) drainOne() bool {
+	cs := c.nd.cs
+	select {
+	case mi := <-cs.internalMsgQueue:
+		switch m := mi.Msg.(type) {
+		case *VoteMessage:
+			c.opVote(0, m.Vote, true)
+		case *ProposalMessage:
+			signer := c.nd.me
+			c.opProposal(m.Proposal, signer, 0)
+		case *BlockPartMessage:
+			// all parts of one block arrive together
+			parts := []*BlockPartMessage{m}
+			if m.Part != nil {
+				for n := int(m.Part.Proof.Total) - 1; n > 0; n-- {
+					nx := <-cs.internalMsgQueue
+					parts = append(parts, nx.Msg.(*BlockPartMessage))
+				}
+			}
+			if m.Part == nil {
+				c.run(fmt.Sprintf("NP %d %d", m.Height, m.Round), func() string { return c.nd.deliverMsg(m, "") })
+				return true
+			}
+			// find the block these parts belong to (an own block, or the valid block re-proposed)
+			var blk *c03Block
+			for _, b := range c.blocks {
+				if b.parts.Total() == uint32(len(parts)) && b.parts.GetPart(0).Proof.Verify(b.parts.Hash().Bytes(), m.Part.Bytes) == nil && b.parts.HasHeader(types.PartSetHeader{Total: uint32(m.Part.Proof.Total), Hash: b.parts.Hash()}) {
+					blk = b
+				}
+			}
+			if blk == nil {
+				panic("internal block parts of an unknown block")
+			}
+			c.run(fmt.Sprintf("K %d %d %d %d", m.Height, m.Round, blk.hashID, blk.partsID), func() string {
+				c.held[blk.blk.Hash()] = true
+				for _, pm := range parts {
+					if p := c.nd.deliverMsg(pm, ""); p != "" {
+						return p
+					}
+				}
+				return ""
+			})
+		}
+		return true
+	default:
+		return false
+	}
+}
+
+// --- the adversary
+
+func (c *c03Case) pickRound() uint32 {
+	cur := c.nd.cs.Round
+	switch c.r.Pick(60, 14, 6, 12, 4, 4) {
+	case 0:
+		return cur
+	case 1:
+		return cur + 1
+	case 2:
+		return cur + 2 + uint32(c.r.Intn(2))
+	case 3:
+		if cur > 1 {
+			return 1 + uint32(c.r.Intn(int(cur-1)))
+		}
+		return cur
+	case 4:
+		return 0
+	default:
+		if c.nd.cs.LockedRound > 0 {
+			return c.nd.cs.LockedRound
+		}
+		return cur
+	}
+}
+
+// value for a vote campaign: the proposal block, the locked block, nil, another block
+func (c *c03Case) pickValue() types.BlockID {
+	cs := c.nd.cs
+	switch c.r.Pick(40, 22, 10, 28) {
+	case 0:
+		if cs.Proposal != nil {
+			return cs.Proposal.POLBlockID
+		}
+		if cs.ProposalBlock != nil && cs.ProposalBlockParts != nil {
+			return types.BlockID{Hash: cs.ProposalBlock.Hash(), PartsHeader: cs.ProposalBlockParts.Header()}
+		}
+	case 1:
+		return types.BlockID{}
+	case 2:
+		if cs.LockedBlock != nil {
+			return types.BlockID{Hash: cs.LockedBlock.Hash(), PartsHeader: cs.LockedBlockParts.Header()}
+		}
+	}
+	return c.someBid(c.someBlock())
+}
+
+// campaign: votes of one (type, round, value) from a random set of other validators, queued so that
+// other inputs can interleave
+func (c *c03Case) startCampaign() {
+	typ := kproto.PrevoteType
+	if c.r.Chance(2, 5) {
+		typ = kproto.PrecommitType
+	}
+	h := c.nd.cs.Height
+	r := c.pickRound()
+	bid := c.pickValue()
+	order := c.r.Perm(c.net.n)
+	count := 1 + c.r.Intn(c.net.n)
+	if c.r.Chance(3, 5) {
+		count = c.net.n
+	}
+	c.o.Count(fmt.Sprintf("campaign:type%d", typ))
+	for _, idx := range order[:count] {
+		idx := idx
+		if idx == c.nd.me {
+			continue // the node's own key is never used by the adversary
+		}
+		c.campaign = append(c.campaign, func() {
+			mode := c.r.Pick(90, 3, 2, 2, 3)
+			hh := h
+			switch c.r.Pick(94, 2, 2, 2) {
+			case 1:
+				hh = h + 1
+			case 2:
+				if h > 0 {
+					hh = h - 1
+				}
+			case 3:
+				hh = 0
+			}
+			b := bid
+			if c.r.Chance(1, 60) { // malformed block id: hash without parts header (dropped by the reactor)
+				b = types.BlockID{Hash: common.BytesToHash([]byte{11})}
+			}
+			v, ok := c.signVoteAs(idx, typ, hh, r, b, mode)
+			c.opVote(1+c.r.Intn(3), v, ok)
+		})
+	}
+}
+
+func (c *c03Case) advProposal() {
+	cs := c.nd.cs
+	b := c.someBlock()
+	bid := c.someBid(b)
+	h, r := cs.Height, cs.Round
+	switch c.r.Pick(88, 4, 4, 4) {
+	case 1:
+		r = cs.Round + 1
+	case 2:
+		if r > 1 {
+			r--
+		}
+	case 3:
+		h++
+	}
+	pol := uint32(0)
+	switch c.r.Pick(60, 25, 8, 7) {
+	case 1:
+		if r > 1 {
+			pol = 1 + uint32(c.r.Intn(int(r-1)))
+		}
+	case 2:
+		pol = r
+	case 3:
+		pol = r + 1 + uint32(c.r.Intn(3))
+	}
+	if cs.ValidRound > 0 && c.r.Chance(1, 3) {
+		pol = cs.ValidRound
+	}
+	p := types.NewProposal(h, r, pol, bid)
+	signer := c.proposerAt(cs.Round)
+	// the proposer of the node's current round as the node computes it (round-dependent)
+	if c.r.Chance(1, 8) {
+		signer = c.r.Intn(c.net.n)
+	}
+	if signer == c.nd.me { // cannot sign for the node itself: use somebody else (a wrong proposer)
+		signer = (signer + 1) % c.net.n
+	}
+	pp := p.ToProto()
+	if err := c.net.pvs[signer].SignProposal(c03ChainID, pp); err != nil {
+		panic(err)
+	}
+	p.Signature = pp.Signature
+	s := signer
+	if c.r.Chance(1, 12) { // content changed after signing: nobody's signature
+		p.POLRound++
+		s = -1
+	}
+	c.o.Count("proposal:" + b.kind)
+	c.opProposal(p, s, 1+c.r.Intn(3))
+}
+
+func (c *c03Case) advBlock() {
+	cs := c.nd.cs
+	var b *c03Block
+	if cs.ProposalBlockParts != nil && c.r.Chance(4, 5) {
+		for _, x := range c.blocks {
+			if x.parts.HasHeader(cs.ProposalBlockParts.Header()) {
+				b = x
+			}
+		}
+	}
+	if b == nil {
+		b = c.someBlock()
+	}
+	h, r := cs.Height, cs.Round
+	switch c.r.Pick(90, 5, 5) {
+	case 1:
+		h++
+	case 2:
+		if r > 1 {
+			r--
+		}
+	}
+	c.opBlock(h, r, b, 1+c.r.Intn(3))
+}
+
+func (c *c03Case) advTimeout() {
+	tk := c.nd.ticker
+	cs := c.nd.cs
+	if len(tk.pending) > 0 && c.r.Chance(9, 10) {
+		ti := tk.pending[0]
+		if c.r.Chance(1, 4) {
+			ti = tk.pending[c.r.Intn(len(tk.pending))]
+		}
+		c.opTimeout(ti.Height, ti.Round, ti.Step)
+		return
+	}
+	// a timeout the ticker never accepted
+	c.opTimeout(cs.Height, cs.Round+uint32(c.r.Intn(3)), cstypes.RoundStepType(1+c.r.Intn(8)))
+}
+
+func (c *c03Case) script(maxOps int) {
+	cs := c.nd.cs
+	for c.opNo < maxOps && !c.dead {
+		if cs.Round > c03MaxRounds-3 || cs.Height > 4 {
+			return
+		}
+		// own messages: usually promptly, sometimes late (interleaved with peer messages)
+		if len(cs.internalMsgQueue) > 0 && c.r.Chance(3, 4) {
+			c.drainOne()
+			continue
+		}
+		if len(c.campaign) > 0 && c.r.Chance(3, 4) {
+			f := c.campaign[0]
+			c.campaign = c.campaign[1:]
+			f()
+			continue
+		}
+		wProp, wBlock, wCamp, wTime := 8, 8, 30, 14
+		switch cs.Step {
+		case cstypes.RoundStepNewHeight:
+			wTime = 60
+		case cstypes.RoundStepNewRound, cstypes.RoundStepPropose:
+			if cs.Proposal == nil {
+				wProp = 40
+			} else if cs.ProposalBlock == nil {
+				wBlock = 50
+			}
+			wTime = 10
+		case cstypes.RoundStepCommit:
+			wBlock = 40
+		}
+		if cs.ProposalBlockParts != nil && cs.ProposalBlock == nil {
+			wBlock += 20
+		}
+		switch c.r.Pick(wProp, wBlock, wCamp, wTime) {
+		case 0:
+			c.advProposal()
+		case 1:
+			c.advBlock()
+		case 2:
+			c.startCampaign()
+		case 3:
+			c.advTimeout()
+		}
+	}
+}
+
+func TestVerifC03(t *testing.T) {
+	if *c03Facts != "" {
+		os.WriteFile(*c03Facts, []byte("(* C03 has no source-derived facts *)\n"), 0o644)
+		return
+	}
+	if *c03Dir == "" {
+		t.Skip("-out required")
+	}
+	log.Root().SetHandler(log.DiscardHandler())
+	o := c03Open(*c03Dir)
+	o.rule = "distinct (event, round) signatures: non-nil precommit at round r, commit at round r, prevote for another block after an unlock (r -> r'), panic class"
+	root := c03NewRand(*c03Seed)
+	for i := 0; i < *c03N; i++ {
+		if *c03Only >= 0 && *c03Only != i {
+			continue
+		}
+		r := root.Fork(uint64(i))
+		n := 4 + r.Intn(4)
+		powers := make([]int64, n)
+		for k := range powers {
+			powers[k] = 10
+			if r.Chance(1, 2) {
+				powers[k] = int64(1 + r.Intn(10))
+			}
+		}
+		net := c03NewNet(fmt.Sprint(i%7), powers)
+		me := r.Intn(n)
+		if r.Chance(1, 12) {
+			me = -1
+		}
+		cfg := configs.TestConsensusConfig()
+		switch r.Pick(60, 25, 15) {
+		case 1:
+			cfg.CreateEmptyBlocksInterval = 3500 * time.Millisecond
+		case 2:
+			cfg.IsCreateEmptyBlocks = false
+		}
+		cfg.IsSkipTimeoutCommit = r.Chance(1, 4)
+		nd := c03NewNode(net, me, cfg)
+		c := &c03Case{o: o, r: r, net: net, nd: nd, hashes: map[common.Hash]int{}, partsH: map[string]int{},
+			byHash: map[common.Hash]*c03Block{}, held: map[common.Hash]bool{}, signedKey: map[string]string{}}
+		ms := "-"
+		if me >= 0 {
+			ms = fmt.Sprint(me)
+		}
+		o.Case(i, fmt.Sprintf("CASE %d %s %d %d %d 1", i, ms, c03b(cfg.IsSkipTimeoutCommit), c03b(cfg.IsCreateEmptyBlocks), c03b(cfg.CreateEmptyBlocksInterval > 0)))
+		l := []string{"VALS"}
+		for _, p := range net.powers {
+			l = append(l, fmt.Sprint(p))
+		}
+		o.InOnly(strings.Join(l, " "))
+		c.lastHRS = [3]uint64{nd.cs.Height, uint64(nd.cs.Round), uint64(nd.cs.Step)}
+		c.script(60 + r.Intn(120))
+		o.Count(fmt.Sprintf("final-height:%d", nd.cs.Height))
+		o.Count(fmt.Sprintf("n:%d", n))
+		if c.maxRound >= 3 {
+			o.Count("reached-round>=3")
+		}
+		nd.close()
+	}
+	o.Close()
 }
